@@ -482,6 +482,24 @@ func c14Packet(c *engine.Ctx, cs c14Case) {
 	}
 	c.Distinct(engine.Hash64(b1))
 	c.Sample(dim(cs.Name), map[string]string{"packet": engine.Hex(trunc(b1, 64)), "descriptor": trs(want.Canon())})
+	// a receiver that decodes every packet of a conversation into one EAP value: the value that held the previous
+	// packet (possibly of the same method, with other attributes) gives the same result as a new one
+	if pv := c14Prev; pv != nil {
+		u := new(eap.EAP)
+		var e1, e2 error
+		if pi := engine.Catch(func() { e1 = u.Unmarshal(pv.want); e2 = u.Unmarshal(b1) }); pi != nil {
+			c.Violate(pi.Sig(), "EAP.Unmarshal into a used value panics: "+pi.Value, c14Case{K: "packet2", Name: pv.name, E: pv.e, Then: cs.E})
+			return
+		}
+		if e1 == nil {
+			if e2 != nil || univ.ProjectEAP(u).Canon() != want.Canon() {
+				c.Violate("roundtrip/decoded-into-used-value", fmt.Sprintf("%s decoded into an EAP value that held %q before: %s (err %v), want %s", cs.Name, pv.name, trs(univ.ProjectEAP(u).Canon()), e2, trs(want.Canon())), c14Case{K: "packet2", Name: pv.name, E: pv.e, Then: cs.E})
+				c14Prev = nil
+				return
+			}
+			c.Count("decoded_into_used_value", 1)
+		}
+	}
 	// the bytes returned for the previous packet must still be that packet after this Marshal
 	if pv := c14Prev; pv != nil && !bytes.Equal(pv.wire, pv.want) {
 		c.Violate("returned-buffer-changed-by-later-marshal", fmt.Sprintf("the bytes returned by Marshal for %q changed when %q was marshalled", pv.name, cs.Name), c14Case{K: "packet2", Name: pv.name, E: pv.e, Then: cs.E})
